@@ -222,6 +222,7 @@ type c09Case struct {
 	ValCap  int
 	Comma   []string // LWS after each ',' (len(Vals)-1)
 	HdrName string
+	Cut     int // > 0: the text is delivered in two chunks, the first of this length
 }
 
 func trimTrail(b []byte, s, e int) (int, int) {
@@ -388,9 +389,18 @@ func evalC09(cs *c09Case) (vs []*Violation) {
 	if !cs.Via {
 		// direct: one value per call, looping on more-values
 		offs := 0
+		avail := len(buf)
+		if cs.Cut > 0 && cs.Cut < len(buf) {
+			avail = cs.Cut
+		}
 		for i := range exps {
 			var pf sipsp.PFromBody
-			n, e := sipsp.ParseNameAddrPVal(h, buf, offs, &pf)
+			n, e := sipsp.ParseNameAddrPVal(h, buf[:avail], offs, &pf)
+			if e == sipsp.ErrHdrMoreBytes && avail < len(buf) {
+				// second chunk arrives: resume with the returned offset and the same structure
+				avail = len(buf)
+				n, e = sipsp.ParseNameAddrPVal(h, buf, n, &pf)
+			}
 			last := i == len(exps)-1
 			if last && e != 0 || !last && e != sipsp.ErrHdrMoreValues {
 				add("well-formed-accepted", gc, fmt.Sprintf("value %d: verdict %v at %d", i, e, n))
@@ -404,7 +414,15 @@ func evalC09(cs *c09Case) (vs []*Violation) {
 	var hl sipsp.HdrLst
 	var pv sipsp.PHdrVals
 	pv.Init(mkVals(cs.ValCap))
-	n, e := sipsp.ParseHeaders(buf, 0, &hl, &pv)
+	var n int
+	var e sipsp.ErrorHdr
+	if cs.Cut > 0 && cs.Cut < len(buf) {
+		if n, e = sipsp.ParseHeaders(buf[:cs.Cut], 0, &hl, &pv); e == sipsp.ErrHdrMoreBytes {
+			n, e = sipsp.ParseHeaders(buf, n, &hl, &pv)
+		}
+	} else {
+		n, e = sipsp.ParseHeaders(buf, 0, &hl, &pv)
+	}
 	if e != 0 {
 		add("well-formed-accepted", gc, fmt.Sprintf("verdict %v at %d", e, n))
 		return
@@ -501,6 +519,7 @@ func checkC09(r *Run) {
 	plists := naParamLists(r.pick(2, 3))
 	maxGaps := r.pick(2, 2)
 	kinds := []sipsp.HdrT{sipsp.HdrFrom, sipsp.HdrTo, sipsp.HdrContact, sipsp.HdrPAI, sipsp.HdrRoute, sipsp.HdrRecordRoute}
+	cutEvery := r.pick(5, 1)
 	run := func(c *enumCtx, cs *c09Case) {
 		vs := evalC09(cs)
 		c.st.Evals++
@@ -509,6 +528,35 @@ func checkC09(r *Run) {
 		c.st.Nontrivial++
 		for _, v := range vs {
 			r.Col.add(v)
+		}
+		// the same text in two chunks (every cut) for every cutEvery-th case: the decomposition must not depend on delivery
+		// deterministic selection: hash of the rendered case
+		var hsh uint32 = 2166136261
+		mix := func(s string) {
+			for i := 0; i < len(s); i++ {
+				hsh = (hsh ^ uint32(s[i])) * 16777619
+			}
+		}
+		tl := 0
+		for _, v := range append(append([]naVal(nil), cs.Vals...), cs.Vals2...) {
+			var sb strings.Builder
+			(&v).render(&sb)
+			tl += sb.Len() + 3
+			mix(sb.String())
+		}
+		mix(fmt.Sprint(cs.Hdr, cs.Via, cs.ValCap, cs.HdrName))
+		if int(hsh>>8)%cutEvery != 0 {
+			return
+		}
+		tl += len(cs.HdrName)*2 + 8
+		for cut := 1; cut < tl; cut++ {
+			cc := *cs
+			cc.Cut = cut
+			c.st.Evals++
+			c.st.Transitions += 2
+			for _, v := range evalC09(&cc) {
+				r.Col.add(v)
+			}
 		}
 	}
 	// single values: every shape x parameter list x gap assignment x header kind (direct and via headers)
